@@ -10,6 +10,7 @@ use std::io::Write;
 
 fn emit(out: &mut impl Write, rep: &mut Report, id: String, impls: Vec<(String, Result<Vec<u8>, String>)>) {
     rep.evaluations += impls.len() as u64;
+    rep.case(&id);
     let mut first: Option<Vec<u8>> = None;
     for (name, r) in impls {
         match r {
